@@ -58,6 +58,8 @@ def check(rep, an, tier):
         R.rule_type_errors(rep, res, "SHAPE", "R-SHAPE", entry)
         R.rule_purity(rep, res, entry)
         CC.rank_of_extents(rep, res, entry)
+        R.rule_dtype(rep, res, entry)
+        R.rule_iterator_reuse(rep, res, entry)
         # error dispatch
         top_raise = [e for e in res.events("raise") if len(e.path) == 1 and e.d.get("exc") == "ValueError" and "outside" in norm_text(e.node)]
         warns = [e for e in res.events("warn") if len(e.path) == 1]
